@@ -1,7 +1,8 @@
 """C04 — a mutated view is indistinguishable from a fresh value with the same content."""
 from hist import *  # noqa
 
-THEOREMS = []
+THEOREMS = ["C04_tree_set", "C04_tree_append", "C04_root_of_representation", "C04_step", "C04_history", "C04_observables", "C04_fresh_is_representation"]
+PARTIAL = ["view-level C04_step / C04_history are proved for List.set / List.append on lists of composite elements; List.pop (zero + summarise), packed element lists, bit operations, vector / container / union mutations are proved only at the contents-tree level (C04_tree_set / C04_tree_append / C04_root_of_representation) and otherwise tied by the correspondence (every step compared with the model and with a freshly built value)"]
 COQ_IMPORTS = ["RM.Types", "RM.ModelStore", "RMR.RunH"]
 COQ_FN = "RunH.run"
 COQ_CASE_TY = "RunH.case"
